@@ -23,8 +23,8 @@ static std::string fmt(const char* f, ...)
     return b;
 }
 
-static const uint16_t kDev[3] = {1, 0x0102, 0xFFFF};          // incl. ids that differ in the high byte only from nothing else, and all ones
-static const uint32_t kIf[2] = {10, 0x8000000Au};            // incl. an id with the sign bit set
+static const uint16_t kDev[3] = {0, 0x0102, 0xFFFF};          // 0 (the id of a default-constructed packet: what a 'not set' shortcut compares with), a two-byte id, all ones
+static const uint32_t kIf[2] = {0, 0x8000000Au};             // 0 (what a zeroed payload reads as) and an id with the sign bit set
 
 // packet ids: cm: 100 + d*10 + v ; if: 1000 + d*100 + i*10 + v ; data: 5000 + d
 static Packet cmPacket(int d, int v)
